@@ -398,6 +398,7 @@ func oracleC08(r *Result) ([]Violation, bool) {
 	}
 	lastCause := map[string]string{}
 	lastLeader := map[string]bool{}
+	lastPromTok := map[string]string{}
 	for _, e := range r.Trace {
 		switch e.K {
 		case "gauge":
@@ -414,6 +415,7 @@ func oracleC08(r *Result) ([]Violation, bool) {
 				s.add(e.T, "promote-with-foreign-token", "%s: OnPromote got token %s which %s never wrote", e.I, e.S, e.I)
 			}
 			last[e.I] = "P"
+			lastPromTok[e.I] = e.S
 		case "demote":
 			switch last[e.I] {
 			case "":
@@ -428,6 +430,9 @@ func oracleC08(r *Result) ([]Violation, bool) {
 					continue
 				}
 				bal := sn.NProm - sn.NDem
+				if sn.IsLeader && bal == 1 && lastPromTok[sn.I] != "" && sn.Token != lastPromTok[sn.I] {
+					s.add(e.T, "term-without-promotion", "%s leads with token %s at %v, but its latest OnPromote carried %s: a term began without its promotion callback", sn.I, sn.Token, e.T, lastPromTok[sn.I])
+				}
 				switch {
 				case sn.IsLeader && bal != 1:
 					s.add(e.T, "leader-without-promote", "%s reports leadership at %v with %d promotions and %d demotions delivered", sn.I, e.T, sn.NProm, sn.NDem)
